@@ -1210,3 +1210,60 @@ def r14_header_fields_bounded(ck, P, rid='C18-R13'):
                     ck.ok(R, where + ' (shift count)', 'bounded above by %d' % hi)
     if n == 0:
         raise AnalysisBroken('%s: no header field converted in %s' % (rid, f.name))
+
+
+def r15_window_from_the_rounded_position(ck, P, rid='C08-R23'):
+    """T-DEP: the readers of a separable-convolution block first round the sample position to the middle of its phase and then derive both
+    the phase (which row of weights) and the window (which source pixels) from that rounded value.  A window placed from the unrounded
+    position disagrees with the weights exactly where rounding crosses a pixel boundary: the whole kernel sits one pixel off."""
+    R = ck.rule(rid, 'in every reader of the separable-convolution block, the first pixel of the kernel window - the integer part of position minus epsilon minus half the kernel size - is computed from a position that has been rounded to its phase (its slice contains a shift left by a count derived from the phase-bits fields of the header): from the unrounded position the window differs from the one the phase weights were built for whenever the position lies on a phase edge that is also a pixel boundary', floor=2)
+    n = 0
+    for f in P.functions():
+        sy = Sym(P, f)
+        hdr = {}
+        for x in f.insts():
+            if x.op == 'load':
+                k = sy.header_index(x.a[0])
+                if k is not None and k in (0, 1, 2, 3):
+                    hdr[x.i] = k
+        if not any(k in (2, 3) for k in hdr.values()) or any(y.op == 'store' and f.last_field(f.path(y.a[1])) == 'image_common.filter_params' for y in f.insts()):
+            continue
+        if f.name == 'analyze_extent':
+            continue
+        def slice_tags(o, want, seen=None, d=0):
+            seen = set() if seen is None else seen
+            y = f.v(o) if o and o[0] == 'v' else None
+            if y is None or y.i in seen or d > 40:
+                return False
+            seen.add(y.i)
+            if y.i in hdr:
+                return hdr[y.i] in want
+            if y.op in ('call',):
+                return False
+            return any(slice_tags(a, want, seen, d + 1) for a in y.a if a)
+        def has_rounding(o, seen=None, d=0):
+            seen = set() if seen is None else seen
+            y = f.v(o) if o and o[0] == 'v' else None
+            if y is None or y.i in seen or d > 40:
+                return False
+            seen.add(y.i)
+            if y.op == 'shl' and slice_tags(y.a[1], (2, 3)):
+                return True
+            if y.op in ('load', 'call'):
+                return False
+            return any(has_rounding(a, seen, d + 1) for a in y.a if a)
+        for x in f.insts():
+            if x.op != 'ashr' or not (x.a[1][0] == 'c' and int(x.a[1][1]) == 16):
+                continue
+            y = f.v(x.a[0])
+            # position - e - offset, the offset derived from a size field of the header
+            if y is None or y.op != 'sub' or not slice_tags(y.a[1], (0, 1)):
+                continue
+            n += 1; ck.saw(f)
+            where = '%s: window start at %s' % (f.name, x.loc())
+            if has_rounding(y.a[0]):
+                ck.ok(R, where, 'from the rounded position')
+            else:
+                ck.violation(R, f.name, 'window start from the unrounded position', '%s places the kernel window (%s) from a position that has not been rounded to its phase, while the weights are selected by the rounded one: for a position exactly on a phase edge that is also a pixel boundary (an exact 2x reduction, scale 1 with an integer translation) the window lies one pixel to the left of the pixels the weights belong to' % (f.name, x.loc()), x.loc())
+    if n == 0:
+        raise AnalysisBroken('%s: no kernel window computation found in the readers of the separable-convolution block' % rid)
